@@ -330,6 +330,7 @@ void pv_arm_some_request(void);
 #define PV_NPATHS 5
 extern unsigned pv_path_mask;
 extern const char* const pv_path_name[PV_NPATHS];      /* created, loaded, decoded, crypt-twice, decrypted-copy */
+uint64_t pv_gen_odd_clock(pv_rng* rng);
 polyseed_data* pv_seed_any_path(pv_rng* rng, const pv_mseed* m, unsigned coin);
 polyseed_data* pv_seed_by_path(pv_rng* rng, const pv_mseed* m, int how, unsigned coin);      /* how 0 needs (m->features & 16) == 0 */
 
